@@ -31,11 +31,11 @@ def _misspell(rng, name):
     return name.rsplit(".", 1)[0] + ".nosuch" if "." in name else name + "q"
 
 
-def _batch(rng, pool, mods, k):
+def _batch(rng, pool, mods, k, related=0.5):
     """k distinct names from `pool`; half of the batches are *related* (a module together with
     modules below it), the combination in which set order and list order matter most."""
     k = min(k, len(pool))
-    if k >= 2 and rng.random() < 0.5:
+    if k >= 2 and rng.random() < related:
         tops = [p for p in pool if any(m.startswith(p + ".") for m in mods)]
         if tops:
             top = W.pick(rng, tops)
@@ -49,19 +49,22 @@ def _batch(rng, pool, mods, k):
     return rng.sample(pool, k)
 
 
-def _gen_filter(rng, modules, unknown_rate, allow_batch=True):
-    """{'f': method, 'v': [values]} drawn from the predicted modules of the target cfg."""
+def _gen_filter(rng, modules, unknown_rate, allow_batch=True, hier=False):
+    """{'f': method, 'v': [values]} drawn from the predicted modules of the target cfg.
+    hier: sessions about the module hierarchy (batches of a package and things below it)."""
     mods = [m for m in modules if not m.endswith("__init__")] or list(modules)
     r = rng.random()
-    if r < 0.55:
-        k = 1 if not allow_batch or rng.random() < 0.6 else rng.randint(2, 3)
-        vals = _batch(rng, mods, mods, k)
+    single = 0.3 if hier else 0.6
+    related = 0.85 if hier else 0.5
+    if r < (0.4 if hier else 0.55):
+        k = 1 if not allow_batch or rng.random() < single else rng.randint(2, 3)
+        vals = _batch(rng, mods, mods, k, related)
         vals = [_misspell(rng, v) if rng.random() < unknown_rate else v for v in vals]
         return {"f": "are_named", "v": vals}
-    if r < 0.72:
+    if r < (0.85 if hier else 0.72):
         parents = sorted({m.rsplit(".", 1)[0] for m in mods if "." in m}) or mods
-        k = 1 if not allow_batch or rng.random() < 0.6 else rng.randint(2, 3)
-        vals = _batch(rng, parents, mods, k)
+        k = 1 if not allow_batch or rng.random() < single else rng.randint(2, 3)
+        vals = _batch(rng, parents, mods, k, related)
         vals = [_misspell(rng, v) if rng.random() < unknown_rate else v for v in vals]
         return {"f": "are_sub_modules_of", "v": vals}
     if r < 0.9:
@@ -101,8 +104,8 @@ def _gen_filter(rng, modules, unknown_rate, allow_batch=True):
     return {"f": "have_name_containing", "v": sorted(set(vals))}
 
 
-def gen_module_spec(rng, modules, unknown_rate):
-    spec = {"kind": "module", "subj": _gen_filter(rng, modules, unknown_rate),
+def gen_module_spec(rng, modules, unknown_rate, hier=False):
+    spec = {"kind": "module", "subj": _gen_filter(rng, modules, unknown_rate, hier=hier),
             "verb": W.pick(rng, VERBS)}
     if rng.random() < 0.15:
         spec["imp"] = W.pick(rng, ANYTHING)
@@ -111,7 +114,7 @@ def gen_module_spec(rng, modules, unknown_rate):
         spec["obj"] = None
     else:
         spec["imp"] = W.pick(rng, IMPORTS)
-        spec["obj"] = _gen_filter(rng, modules, unknown_rate)
+        spec["obj"] = _gen_filter(rng, modules, unknown_rate, hier=hier)
     return spec
 
 
@@ -227,11 +230,12 @@ def gen_world(wseed):
     cfgs = {}
     predicted = {}
     layer_focus = rng.random() < 0.25  # sessions about layer rules over pattern-defined layers
+    hier_focus = (not layer_focus) and rng.random() < 0.3  # sessions about packages and what lies below them
     for t in range(ntrees):
         if t == 1 and rng.random() < 0.6:
             tree = W.variant_tree(rng, trees["t0"], "t1")
         else:
-            tree = W.gen_tree(rng, f"t{t}", exotic)
+            tree = W.gen_tree(rng, f"t{t}", exotic, pkg_bias=0.5 if hier_focus else 0.0)
         trees[tree.name] = tree
         ncfg = rng.randint(2, 4) if t == 0 else rng.randint(1, 2)
         for j in range(ncfg):
@@ -280,7 +284,7 @@ def gen_world(wseed):
                 target = cfg_ids[0]
             if len(predicted[target]) < 2:
                 continue
-            spec = gen_module_spec(rng, predicted[target], unknown_rate)
+            spec = gen_module_spec(rng, predicted[target], unknown_rate, hier=hier_focus)
         spec["target"] = target
         specs[f"s{s}"] = spec
     world = {"trees": {n: t.spec() for n, t in trees.items()},
